@@ -23,6 +23,7 @@
 -/
 import OtterVerif.Impl.Wheel
 import OtterVerif.Proofs.WheelSweep
+import OtterVerif.Proofs.WheelGen
 
 namespace OtterVerif.Props.C13
 open OtterVerif.Impl.Wheel
@@ -163,7 +164,65 @@ theorem c13_effective_time {w : Wheel} (h : WReach w) (l s : Nat) (x : Ent) (hx 
     x.d ≤ x.e ∧ x.e < two64 :=
   ⟨((wreach_inv h).2.2 l s x hx).de, ((wreach_inv h).2.2 l s x hx).bd⟩
 
+/-! ### The model's arithmetic is the code's (regenerated from internal/expiration/variable.go on every run)
+
+The tables `buckets`, `spans`, `shift` with their initialisers, `wheelTime`/`clockTime` and every pure right-hand side and
+condition of findBucket / DeleteExpired / deleteExpiredFromBucket are translated into `Gen.Wheel` over `BitVec 64`; the
+theorems below relate them, for all 64-bit values, to the natural-number model the sweep theorem is about.  A change to a
+constant, a shift, a mask, a comparison or an operand in those functions breaks one of these. -/
+
+/-- the three tables built at start-up are the model's levels: (2^30,64) (2^36,64) (2^42,32) (2^47,4) (2^49,1) -/
+theorem c13_gen_tables :
+    Gen.Wheel.buckets.map BitVec.toNat = nBuckets ∧ Gen.Wheel.shift.map BitVec.toNat = shifts ∧
+    Gen.Wheel.spans.map BitVec.toNat = spans :=
+  ⟨Proofs.WheelGen.buckets_eq, Proofs.WheelGen.shift_eq, Proofs.WheelGen.spans_eq⟩
+
+/-- findBucket as the code computes it (clamp of a due deadline, wrapping subtraction, comparison against spans[i+1], shift,
+    mask) picks the model's level and slot, for every wheel time and every deadline -/
+theorem c13_gen_findBucket (time d : BitVec 64) :
+    Proofs.WheelGen.findBucketG time d = findBucket time.toNat d.toNat :=
+  Proofs.WheelGen.findBucketG_eq time d
+
+/-- the code's map from clock readings to the wheel's time line is the model's, and clockTime undoes it -/
+theorem c13_gen_wheelTime (t : Int) : (Gen.Wheel.wheelTime (BitVec.ofInt 64 t)).toNat = wheelTime t :=
+  Proofs.WheelGen.wheelTime_eq t
+
+theorem c13_gen_clockTime (t : BitVec 64) : Gen.Wheel.clockTime (Gen.Wheel.wheelTime t) = t :=
+  Proofs.WheelGen.clockTime_wheelTime t
+
+/-- DeleteExpired: five levels; per level the tick numbers are `time >>> shift i`, their wrapping difference is the
+    model's `delta`, and the loop stops at the first level whose tick did not advance -/
+theorem c13_gen_levels (pt ct : BitVec 64) (i : Nat) (hi : i < 5) :
+    Gen.Wheel.de_loop (BitVec.ofNat 64 i) = true ∧
+    (Gen.Wheel.de_previousTicks (BitVec.ofNat 64 i) pt).toNat = pt.toNat >>> shift i ∧
+    (Gen.Wheel.de_currentTicks ct (BitVec.ofNat 64 i)).toNat = ct.toNat >>> shift i ∧
+    (∀ a b : BitVec 64, (Gen.Wheel.de_delta a b).toNat = (a.toNat + two64 - b.toNat) % two64) ∧
+    (∀ dl : BitVec 64, Gen.Wheel.de_stop dl = (dl.toNat == 0)) := by
+  refine ⟨?_, Proofs.WheelGen.de_ticks_eq pt i hi, Proofs.WheelGen.de_currentTicks_eq ct i hi,
+    Proofs.WheelGen.de_delta_eq, Proofs.WheelGen.de_stop_eq⟩
+  rw [Proofs.WheelGen.de_loop_eq i (by omega)]
+  simpa using hi
+
+theorem c13_gen_levels_end : Gen.Wheel.de_loop (BitVec.ofNat 64 5) = false := by
+  rw [Proofs.WheelGen.de_loop_eq 5 (by decide)]; decide
+
+/-- deleteExpiredFromBucket: start slot, number of visited buckets and visited slot are the model's
+    `prevTicks % b`, `min (delta+1) b`, `(start+k) % b` -/
+theorem c13_gen_bucket_walk (pt j delta : BitVec 64) (i : Nat) (hi : i < 5) (hd : delta.toNat + 1 < two64) :
+    (Gen.Wheel.db_start (Gen.Wheel.db_mask (BitVec.ofNat 64 i)) pt).toNat = pt.toNat % buckets i ∧
+    (Gen.Wheel.db_steps delta (BitVec.ofNat 64 i)).toNat = min (delta.toNat + 1) (buckets i) ∧
+    (Gen.Wheel.db_slot j (Gen.Wheel.db_mask (BitVec.ofNat 64 i))).toNat = j.toNat % buckets i :=
+  ⟨Proofs.WheelGen.db_start_eq pt i hi, Proofs.WheelGen.db_steps_eq delta i hi hd, Proofs.WheelGen.db_slot_eq j i hi⟩
+
+/-- a node of a visited bucket is handed to expireNode iff its deadline lies strictly before the clock reading the wheel
+    was moved to (signed comparison on the clock's own line), and expireNode is told that very reading -/
+theorem c13_gen_expired (e now : BitVec 64) :
+    Gen.Wheel.db_expired e (Gen.Wheel.de_currentTime now) = BitVec.slt e now ∧
+    Gen.Wheel.db_reportedNow (Gen.Wheel.de_currentTime now) = now :=
+  ⟨Proofs.WheelGen.db_expired_signed e now, Proofs.WheelGen.db_reportedNow_eq now⟩
+
 /-! ### Non-vacuity -/
+example : Proofs.WheelGen.findBucketG (Gen.Wheel.wheelTime 5#64) (Gen.Wheel.wheelTime 4000000000#64) = (0, 3) := by decide
 example : Visited (2 ^ 30) 64 0 (5 * 2 ^ 30) (3 % 64) := by
   have := c13_visit (2 ^ 30) 64 0 (5 * 2 ^ 30) (3 * 2 ^ 30) (by decide) (by decide) (by decide)
   simpa using this
